@@ -309,10 +309,24 @@ def r2(ctx):
                 vs = c02._value_set(ctx, f, n, a) if a is not None else None
                 names = sorted(v.name for v in vs) if vs and all(isinstance(v, EnumVal) for v in vs) else None
                 ctx.check(names == ["TURN_ON", "UNCHANGED"], R, f"{clsname}.set_mode:power", m, c, "power is UNCHANGED unless power_on, then TURN_ON", str(names))
-                ts = f.tests(lambda e: isinstance(e, ast.Name) and e.id == "power_on")
-                on = [x for x, v in [(nn, nn.ast.value) for nn in f.cfg.nodes if nn.kind == "stmt" and isinstance(nn.ast, ast.Assign) and dotted(nn.ast.targets[0]) == "power"] if (dotted(v) or "").endswith(".TURN_ON")]
-                ok = bool(ts) and bool(on) and all(f.cfg.dominates(f.branch(t, "true").id, x.id) for t in ts for x in on)
-                ctx.check(ok, R, f"{clsname}.set_mode:power_on-guard", m, f.node, "TURN_ON is selected only under `power_on`", "unguarded or inverted")
+                # evaluated for both values of power_on (sa/minieval.py): the power argument that reaches the sender
+                from ..minieval import Mini, Unsupported
+
+                def stop(st, c=c):
+                    if any(x is c for x in ast.walk(st)):
+                        return next((k.value for k in c.keywords if k.arg == "power"), ast.Constant(value="<no power argument>"))
+                    return None
+
+                api_mode = ctx.repo.try_fold(ctx.repo.module(API), ast.parse("AcMode.HEAT", mode="eval").body)
+                got = {}
+                for flag in (False, True):
+                    try:
+                        kind, v = Mini(ctx.repo, m, {"self._supported_modes": [api_mode], "self.supported_modes": [api_mode]}, f.cls).value_at(f.node, {"mode": api_mode, "power_on": flag}, stop)
+                    except Unsupported as ex:
+                        raise AnalysisError(f"{m.relpath}: {clsname}.set_mode left the evaluable fragment: {ex}")
+                    got[flag] = getattr(v, "name", repr(v)) if kind == "value" else f"<{kind}>"
+                ok = got == {False: "UNCHANGED", True: "TURN_ON"}
+                ctx.check(ok, R, f"{clsname}.set_mode:power_on-guard", m, f.node, "power=TURN_ON exactly when power_on is true, UNCHANGED otherwise", f"power_on=False -> {got[False]}, power_on=True -> {got[True]}")
         # the sender: fields <- parameters of the same name, entity = own id
         ctor = {"_send_group_control_message": "GroupControlMessage", "_send_zone_control_message": "ZoneControlData"}.get(sender) or ("AcControlMessage" if clsname.startswith("At4") else "AcControlData")
         cons = snd.calls(ctor)
